@@ -33,8 +33,18 @@ func (u *UseCase) Set(ctx context.Context, key string, content io.Reader) error 
 
 	var (
 		minSize uint64
-		closer  io.Closer
+		// The partial files of the roots that ran out of space. Each of them
+		// is part of the stream the next root reads from, and a root that
+		// fails before it has consumed all of that stream passes the rest on
+		// once more: none of them may be closed before the write has ended.
+		closers []io.Closer
 	)
+	defer func() {
+		for _, c := range closers {
+			c.Close()
+		}
+	}()
+
 	for dir, ok := range dirs.Iterate(u.randGen) {
 		if !ok {
 			return fs_db.ErrNoFreeSpace
@@ -49,11 +59,7 @@ func (u *UseCase) Set(ctx context.Context, key string, content io.Reader) error 
 		if err != nil {
 			var errNotEnoughSpace model.NotEnoughSpaceError
 			if errors.As(err, &errNotEnoughSpace) {
-				if closer != nil {
-					closer.Close()
-				}
-
-				closer = errNotEnoughSpace
+				closers = append(closers, errNotEnoughSpace)
 				content = errNotEnoughSpace.Reader()
 				minSize = dir.Free
 				continue
@@ -63,10 +69,6 @@ func (u *UseCase) Set(ctx context.Context, key string, content io.Reader) error 
 		}
 
 		break
-	}
-
-	if closer != nil {
-		closer.Close()
 	}
 
 	err = u.cfRepo.Store(ctx, cFile)
